@@ -26,6 +26,37 @@ CLAIMED = {
     ),
 }
 
+CLAIMED.update({
+    "C13": (
+        "abstract interpretation on a type-shape domain over the malformed-argument grammar (existential bad-element witnesses) + effect-before-raise analysis",
+        "proof",
+        "Every public operation of every registered model is evaluated abstractly on every class of the statement's malformed-argument "
+        "grammar and on the well-formed classes; malformed => all paths raise TypeError/ValueError with an empty effect set, "
+        "well-formed => no path raises. Exhaustive over the abstract grammar; obligations = abstract cases + rejection points.",
+        "Trusted: the abstract semantics of isinstance/len/truthiness/iteration and CPython's implicit TypeError in osv/ai, the own resolver. "
+        "Assumes arguments are plain containers/numbers/ratings or unrelated objects (no adversarial list subclasses).",
+        "DESIGN.md §5 C13",
+    ),
+    "C14": (
+        "transitive effect analysis + provenance (taint) analysis by abstract interpretation; syntactic call-graph cross-check",
+        "proof",
+        "The write set of rate/predict_* (all paths of all argument classes, through every resolved callee) contains no model attribute, "
+        "module global, class attribute, default-argument object; id/name/identity/hash/random never reach a stored or returned number, "
+        "a branch or a sort key; every model attribute read is constructor-stored. The thread clause is derived from these facts.",
+        "Trusted: osv/ai effect events and allocation-site classification; stdlib leaves (deepcopy, itertools, NormalDist) assumed to write no shared state; "
+        "the gamma callback is assumed pure. Schedules are not explored: the interleaving claim is an argument from disjoint write sets.",
+        "DESIGN.md §5 C14",
+    ),
+    "C15": (
+        "abstract evaluation on the option domain {None, falsy-not-None, truthy} with ARG/CTOR provenance through data flow and control dependence",
+        "proof",
+        "For each option and option class the numbers stored into ratings depend on the argument (never on the model attribute) when the argument is not None "
+        "and on the constructor attribute when it is None; the constructor stores the parameter unchanged modulo float(). 30 option cases x selector classes per model.",
+        "Trusted: provenance propagation of osv/ai. The per-call and model-level paths are compared by which source reaches the stores, not by running both.",
+        "DESIGN.md §5 C15",
+    ),
+})
+
 NOT_APPLICABLE = {
     "C01": "numeric equality (1e-9) with published closed forms over a continuous input box: no sound static "
     "argument in reach; its structural necessary conditions are decided under C02/C03/C05/C06/C07/C16/C19",
